@@ -575,7 +575,19 @@ struct CtxSim {
 		} else if (op.k == "VERIFY") {
 			size_t idx = (size_t)op.arg(0) % live.size();
 			Live lv = live[idx];
+			// optionally the n-th allocation of this (first) verification fails: whatever it then reports, the serialization and the
+			// verdict of the later verifications of the same object are those of an undisturbed one
+			int fail_idx = (int)op.arg(11);
+			if (fail_idx > 0) {
+				// ... of a fresh clone (whose lazily expanded parts are still raw), which then joins the live signatures
+				KSI_Signature *c = nullptr;
+				if (KSI_Signature_clone(live[idx].sig, &c) == KSI_OK && c) { add_live(c, lv.bytes, lv.hash, lv.level, lv.block); idx = live.size() - 1; lv = live[idx]; }
+				A.reset_counter(); A.fail_at = {(uint64_t)fail_idx}; A.armed = true;
+			}
 			Triple a = verify_on(ctx, live[idx].sig, op, lv);
+			bool alloc_failed = fail_idx > 0 && A.fired > 0;
+			A.armed = false; A.fail_at.clear();
+			if (alloc_failed) { K.count("fault.alloc_fail_in_verification"); nontrivial = true; }
 			check_all_unchanged("verify");
 			// the same verification again
 			Triple b = verify_on(ctx, live[idx].sig, op, lv);
@@ -590,11 +602,15 @@ struct CtxSim {
 			K.ev("VERIFY sig=%zu policy=%lld -> res=0x%x rc=%d ec=%d | again res=0x%x rc=%d ec=%d | fresh res=0x%x rc=%d ec=%d", idx, (long long)(op.arg(1) % 4), a.res, a.rc, a.ec, b.res, b.rc, b.ec, f.res, f.rc, f.ec);
 			K.count(a.rc == 0 ? "outcome.verify_ok" : a.rc == 1 ? "outcome.verify_na" : "outcome.verify_fail");
 			if (op.arg(1) % 4 != 0 || op.arg(2) % 4 != 0) nontrivial = true;
+			if (alloc_failed) {
+				if (fs && b.cut == f.cut && !(b == f)) K.fail("C11", "verdict-changed-by-a-failed-verification", "verify", "after a verification in which an allocation failed (0x%x,%d,%d) the same verification gives (0x%x,%d,%d), on a fresh context (0x%x,%d,%d)", a.res, a.rc, a.ec, b.res, b.rc, b.ec, f.res, f.rc, f.ec);
+			} else
 			if (a.cut != b.cut) K.count("probe.fault_cut_only_one_of_the_twin_replies");
 			else if (!(a == b)) K.fail("C11", "verification-not-repeatable", "verify", "the same verification twice gives (0x%x,%d,%d) then (0x%x,%d,%d)", a.res, a.rc, a.ec, b.res, b.rc, b.ec);
 			// the transport fault sits at a byte offset; the reply to a long-lived context is a byte longer once its request ids need
 			// two bytes, so the same offset may cut one reply and spare the other: only like is compared with like
-			if (fs && a.cut != f.cut) K.count("probe.fault_cut_only_one_of_the_twin_replies");
+			if (alloc_failed) ;
+			else if (fs && a.cut != f.cut) K.count("probe.fault_cut_only_one_of_the_twin_replies");
 			else if (fs && !(a == f)) K.fail("C11", "verdict-depends-on-context-history", "verify", "verdict on the shared context (0x%x,%d,%d) differs from the verdict on a fresh context (0x%x,%d,%d)", a.res, a.rc, a.ec, f.res, f.rc, f.ec);
 			if (!fs) K.fail("C11", "accepted-signature-rejected-later", "fresh-parse", "a fresh context rejects the signature (0x%x)", pres);
 			if (fs) KSI_Signature_free(fs);
@@ -809,7 +825,7 @@ struct HistoryEngine : run::Engine {
 			int r = (int)g.below(100);
 			run::Op op;
 			if (r < 10) { op.k = "PREPEND"; op.a = {(int64_t)g.below(8), (int64_t)g.below(8), (int64_t)g.below(6), (int64_t)g.below(3)}; }
-			else if (r < 45) { op.k = "VERIFY"; op.a = {(int64_t)g.below(16), (int64_t)g.below(4), (int64_t)g.below(4), (int64_t)g.below(8), (int64_t)g.below(2), (int64_t)g.below(4), g.chance(1, 2) ? 0 : (int64_t)g.below(B__COUNT), (int64_t)g.below(1 << 30), g.chance(2, 3) ? 0 : (int64_t)g.range(1, 3), (int64_t)g.below(900), (int64_t)g.below(2)}; }
+			else if (r < 45) { op.k = "VERIFY"; op.a = {(int64_t)g.below(16), (int64_t)g.below(4), (int64_t)g.below(4), (int64_t)g.below(8), (int64_t)g.below(2), (int64_t)g.below(4), g.chance(1, 2) ? 0 : (int64_t)g.below(B__COUNT), (int64_t)g.below(1 << 30), g.chance(2, 3) ? 0 : (int64_t)g.range(1, 3), (int64_t)g.below(900), (int64_t)g.below(2), g.chance(4, 5) ? 0 : (int64_t)g.range(1, 48)}; }
 			else if (r < 55) { op.k = "PARSE"; op.a = {(int64_t)g.below(16)}; }
 			else if (r < 63) { op.k = "CLONE"; op.a = {(int64_t)g.below(16)}; }
 			else if (r < 75) { op.k = "EXTEND"; op.a = {(int64_t)g.below(16), g.chance(1, 2) ? 0 : (int64_t)g.below(B__COUNT), (int64_t)g.below(1 << 30), g.chance(2, 3) ? 0 : (int64_t)g.range(1, 3)}; }
